@@ -108,9 +108,9 @@ def audit(prop_id: str, modules: list[str], drivers: list[str] = ()) -> dict:
     af.write_text(body)
     r = lake(["env", "lean", str(af)])
     out = r.stdout + r.stderr
-    for m in re.finditer(r"'([^']+)' depends on axioms: \[([^\]]*)\]", out):
+    for m in re.finditer(r"'(\S+?)' depends on axioms: \[([^\]]*)\]", out):
         res["theorems"][m.group(1)] = sorted(a.strip() for a in m.group(2).replace("\n", " ").split(",") if a.strip())
-    for m in re.finditer(r"'([^']+)' does not depend on any axioms", out):
+    for m in re.finditer(r"'(\S+?)' does not depend on any axioms", out):
         res["theorems"][m.group(1)] = []
     for n, ax in res["theorems"].items():
         if ax is None:
